@@ -344,56 +344,59 @@ func (r *Runner) Run(cs *Case) {
 	}
 }
 
-// SharedObj: a value marshalled and parsed BEFORE the goroutines start; afterwards every goroutine only READS the parsed value
-// (projection, MarshalBinary) - family f15s of the concurrent driver.
+// SharedObj: a value built (and, separately, marshalled and parsed) BEFORE the goroutines start; afterwards every goroutine
+// only READS the two objects (projection, MarshalBinary) - family f15s of the concurrent driver.
 type SharedObj struct {
-	c   codec
-	x   interface{}
-	m   []byte
-	obj interface{}
+	c      codec
+	x      interface{}
+	built  interface{} // built from the case's value, never marshalled before it is shared
+	parsed interface{} // parsed from the library's own encoding of the value (nil: does not marshal / parse)
 }
 
-// Share prepares the shared value of a case (nil: the case is an octet string, or the value does not marshal / parse).
+// Share prepares the shared objects of a case (nil: the case is an octet string).
 func Share(cs *Case) *SharedObj {
-	var c codec
-	var x interface{}
+	s := &SharedObj{}
 	switch cs.Kind {
 	case "rules":
-		c, x = rulesCodec, cs.rules
+		q := buildRules(cs.rules)
+		s.c, s.x, s.built = rulesCodec, cs.rules, &q
 	case "descs":
-		c, x = descsCodec, cs.descs
+		q := buildDescs(cs.descs)
+		s.c, s.x, s.built = descsCodec, cs.descs, &q
 	default:
 		return nil
 	}
-	var s *SharedObj
 	ev.Guard(func() {
-		m, err := c.marshal(x)
+		m, err := s.c.marshal(s.x)
 		if err != nil {
 			return
 		}
-		obj, err := c.parse(append([]byte{}, m...))
-		if err != nil {
-			return
+		if obj, err := s.c.parse(append([]byte{}, m...)); err == nil {
+			s.parsed = obj
 		}
-		s = &SharedObj{c: c, x: x, m: m, obj: obj}
 	})
 	return s
 }
 
-// RunShared reads the shared value: the event has the shape of the family's RoundTrip event (value, its octets, the parsed
-// value as projected now, the octets MarshalBinary of the parsed value gives now) and is judged like one.
+// RunShared reads the shared objects: each event has the shape of the family's RoundTrip event (the value; the octets
+// MarshalBinary of the shared object gives NOW, as both encodings; the object as projected now) and is judged like one.
 func (r *Runner) RunShared(s *SharedObj) {
 	if s == nil {
 		return
 	}
-	e := newEv("RoundTrip", s.c)
-	e.X, e.Bytes = s.x, ev.Ints(s.m)
-	pi, hang := guarded(func() {
-		b2, err := s.c.marshalObj(s.obj)
-		e.Back, e.M2Err, e.Bytes2 = s.c.proj(s.obj), err != nil, ev.Ints(b2)
-	})
-	setPanic(&e, pi, hang)
-	r.W.Emit(e)
+	for _, obj := range []interface{}{s.built, s.parsed} {
+		if obj == nil {
+			continue
+		}
+		e := newEv("RoundTrip", s.c)
+		e.X = s.x
+		pi, hang := guarded(func() {
+			b2, err := s.c.marshalObj(obj)
+			e.Back, e.MErr, e.M2Err, e.Bytes, e.Bytes2 = s.c.proj(obj), err != nil, err != nil, ev.Ints(b2), ev.Ints(b2)
+		})
+		setPanic(&e, pi, hang)
+		r.W.Emit(e)
+	}
 }
 '''
 
